@@ -64,6 +64,8 @@ inductive NameE
   | firstSeg                 -- `strings.Split(symbol, ".")[0]`, or `symbol[:i]` with `i := strings.Index…(symbol, ".")`
   | uptoLastDot              -- `symbol[:i]` with `i := strings.LastIndex…(symbol, ".")`
   | other (src : String)
+  | mapKey (n : NameE)       -- `m.key` for `m := store.mapSymbols[<n>]`: the bucket KEY the map symbol NAMED <n> is stored under
+  | symKey (n : NameE)       -- the key (last path element) of the store's non-map symbol named <n>
   deriving DecidableEq, Repr
 
 /-- the two key sets of the store that IsPublicSymbol consults -/
